@@ -509,12 +509,28 @@ def remove_leaf(t, x):
     return (t[0], kids)
 
 
+def valid(case):
+    """The guards of the property / theorems: a presence (two for the top-down method, whose single-presence
+    patterns are answered by PhyBo.get_GLS itself), states in {1,0,-1}."""
+    if case["kind"] == "phybo":
+        return True
+    need = 2 if case["kind"] == "topdown" else 1
+    return case["paps"].count(1) >= need and all(p in (1, 0, -1) for p in case["paps"])
+
+
 def shrink(case):
+    for c in _shrink(case):
+        if valid(c):
+            yield c
+
+
+def _shrink(case):
     if case["kind"] == "phybo":
         cogs = sorted({r[3] for r in case["rows"]})
-        for cg_ in cogs:                        # drop one cognate set
+        langs = {r[1] for r in case["rows"]}
+        for cg_ in cogs:                        # drop one cognate set, keeping every language of the tree
             rows = [r for r in case["rows"] if r[3] != cg_]
-            if rows:
+            if rows and {r[1] for r in rows} == langs:
                 c = dict(case)
                 c["rows"] = rows
                 yield c
